@@ -429,3 +429,8 @@ Proof. destruct q as [[x y] z], p as [[a b] c]. unfold d2, sq. ring. Qed.
 
 Lemma knn_spec_length k bound q targets : length (knn_spec k bound q targets) = k.
 Proof. unfold knn_spec. apply best_length. rewrite app_length, repeat_length. lia. Qed.
+
+(* a checkable sufficient condition for tree_of *)
+Definition ileb (a b : Z * P) : bool := fst a <=? fst b.
+Lemma tree_of_by_sort t targets : isort ileb (points t) = indexed targets -> tree_of t targets.
+Proof. intros H. unfold tree_of. rewrite <- H. symmetry. apply isort_perm. Qed.
